@@ -146,6 +146,26 @@ func registerIntrinsics(P *Program) {
 		m.assert(args[0].(*Term), m.concStr(args[1], "assert label"))
 		return nil
 	}
+	// Possible(c, label): an existential obligation - c must be satisfiable here (together with
+	// the path condition). Used for "X is not determined by what the adversary knows": the
+	// violation is that NO value of the environment's free choices makes c true.
+	in[sa+"Possible"] = func(fr *frame, args []Value) Value {
+		m := fr.m
+		m.possible(args[0].(*Term), m.concStr(args[1], "possible label"))
+		return nil
+	}
+	// crypto/rand: every byte read is a fresh unconstrained symbol of the environment (not on the tape)
+	in["crypto/rand.Read"] = func(fr *frame, args []Value) Value {
+		m := fr.m
+		b := args[0].([]Value)
+		k, _ := m.side["rand.n"].(int)
+		for i := range b {
+			b[i] = m.newVar(fmt.Sprintf("rand_%d", k), BV(8))
+			k++
+		}
+		m.side["rand.n"] = k
+		return Tuple{m.tb.Const(64, uint64(len(b))), Iface{}}
+	}
 	in[sa+"Reach"] = func(fr *frame, args []Value) Value {
 		m := fr.m
 		m.reached[m.concStr(args[0], "reach label")] = true
